@@ -279,6 +279,15 @@ func (p *prop) Generate(rng *core.Rand, tier string, emit func(string)) {
 		k := genCase(rng)
 		emit(k.line())
 	}
+	// templates' httpInclude: the virtual sub-request of an outer request
+	for c := 0; c < n/16; c++ {
+		k := genCase(rng)
+		k.inc, k.lb, k.fails, k.mode, k.hops, k.srvDyn = true, 0, 0, 0, 0, false
+		if rng.Chance(1, 2) && !k.srvTNil {
+			k.srvT = append(k.srvT, rng.Pick([]string{"127.0.0.0/8", "127.0.0.1"}))
+		}
+		emit("inc" + strings.TrimPrefix(k.line(), "req"))
+	}
 	// Caddyfile glue: the adapter's reading of the options that configure all of the above
 	ncf := n / 10
 	for c := 0; c < ncf; c++ {
